@@ -5,7 +5,7 @@ EXTENDS HMSModel
 Lv(e, p, g, lsc, n) == [eng |-> e, pop |-> p, gens |-> g, lsc |-> lsc, lscn |-> n]
 Cf(name, lv, limit, hib, gsc, n, w) ==
     [name |-> name, nlevels |-> Len(lv), levels |-> lv, limit |-> limit, hib |-> hib,
-     gsc |-> gsc, gscn |-> n, gscw |-> w]
+     gsc |-> gsc, gscn |-> n, gscw |-> w, localmethod |-> 0]
 
 \* --- scripted (free) stop conditions: every position at which the global condition can first turn true,
 \*     every deme whose local condition fires in every metaepoch
@@ -44,5 +44,11 @@ ShippedConfigs ==
     \cup {Three("SingularEvalLimit", n, <<1, 1, 1>>, 1) : n \in 3..9}
     \cup {Three("AllStopped", 0, <<1, 1, 1>>, 0), Three("NoActiveNonroot", 1, <<1, 1, 1>>, 0)}
 
-QuickConfigs == ScriptedConfigs \cup ShippedConfigs
+\* --- NBCGeneratorWithLocalMethod: finished demes of the last-but-one level hand their best to a local search
+LocalMethodConfigs ==
+    { [Cf("LM3" \o ToString(h) \o ToString(n),
+          <<Lv("SEA", 1, 1, "DontStop", 0), Lv("DE", 1, 1, "MetaepochLimit", n), Lv("LOCAL", 0, 1, "DontStop", 0)>>,
+          2, h, "MetaepochLimit", 4, <<1, 1, 1>>) EXCEPT !.localmethod = 1] : h \in {0, 1}, n \in {1, 2} }
+
+QuickConfigs == ScriptedConfigs \cup ShippedConfigs \cup LocalMethodConfigs
 =============================================================================
